@@ -178,6 +178,41 @@ theorem C02_code_cancel_whole (s : PyFut.S) (m : St) (t : Nat) (hr : Rel s m) (h
   refine ⟨_, (by simp only [run, runFrom, hstep]; exact hpass), ?_⟩
   simp
 
+/-- **a winning setter as a whole** (`_OutputFuture.set_result`; the other plain setters are the same term): on a pending future the
+regenerated method makes the state change, notifies the waiters, calls every stored callback once, in order, drops the list; in the
+model that is `finish t`, one `invokeNext t` per callback, `invokeEnd t`.  On a future that is already done it raises
+InvalidStateError from inside the lock section and nothing else happens (`setLate t`). -/
+theorem C02_code_set_whole (s : PyFut.S) (m : St) (t : Nat) (hr : Rel s m) :
+    (s.st = .pending →
+      (runMethod K16.outputSetResult s).2 = .normal ∧ (runMethod K16.outputSetResult s).1.st = .finished ∧
+      (runMethod K16.outputSetResult s).1.notified = true ∧ (runMethod K16.outputSetResult s).1.invoked = s.invoked ++ s.cbs ∧
+      (runMethod K16.outputSetResult s).1.cbs = [] ∧
+      ∃ m', run m (Act.finish t :: (s.cbs.map (fun _ => Act.invokeNext t) ++ [.invokeEnd t])) = some m' ∧
+        m'.st = .finished ∧ m'.invoked = m.invoked ++ s.cbs ∧ m'.owed = none ∧ m'.stored = []) ∧
+    (s.st ≠ .pending → runMethod K16.outputSetResult s = (s, .raisedInvalidState) ∧ step m (.setLate t) = some m) := by
+  obtain ⟨h1, h2, h3⟩ := hr
+  have hm : K16.outputSetResult = ⟨.superSet, .invoke K16.invokeBody⟩ := by decide
+  constructor
+  · intro hp
+    have hl : exec Stmt.superSet s = ({ s with st := .finished, notified := true }, .normal) := by
+      rw [plain_setter_locked]; simp [hp]
+    unfold runMethod
+    rw [hm]
+    simp only [hl, invoke_all]
+    refine ⟨trivial, trivial, trivial, trivial, trivial, ?_⟩
+    have hstep : step m (.finish t) = some { m with st := .finished, owed := some (t, m.stored), stored := [], notified := true } := by
+      simp [step, h1, hp]
+    have hpass := model_pass t s.cbs { m with st := .finished, owed := some (t, m.stored), stored := [], notified := true } (by simp [h2 hp])
+    refine ⟨_, (by simp only [run, runFrom, hstep]; exact hpass), ?_⟩
+    simp
+  · intro hp
+    have hl : exec Stmt.superSet s = (s, .raisedInvalidState) := by
+      rw [plain_setter_locked]; simp [hp]
+    refine ⟨?_, by simp [step, h1, hp]⟩
+    unfold runMethod
+    rw [hm]
+    simp only [hl]
+
 /-- no class other than `_Future` redefines a protocol method (f_nocancel's `cancel` is the deliberate exception) -/
 theorem C02_code_no_overrides : K16.protocolOverrides = [] := by decide
 
